@@ -8,6 +8,7 @@ Cases == {[kind |-> k, naming |-> n, props |-> p, body |-> b, want |-> Run(b, 1,
 Keep(c) == /\ WellFormed(c.kind, c.body)
            /\ (c.kind = "eop" => c.props = "none")           \* the macro rejects properties with enter_on_poll
            \* thin out: all bodies for the plain kinds with default naming, a few shapes for every other combination
+           /\ (c.naming \in {"default_f", "short_f"} => c.props = "none" /\ Len(c.body) <= 1)
            /\ \/ (c.naming = "default" /\ c.props = "none")
               \/ (Len(c.body) <= 1)
               \/ (c.kind \in {"sync", "async"} /\ Len(c.body) <= 2 /\ c.props \in {"format", "both"})
